@@ -50,11 +50,11 @@ CONTRACTS = {
     "AtLeast.equation_bounds": {"props": ["C06"], "why": "range of sign*sum - value"},
     "AtLeast.is_tautology": {"props": ["C06"], "why": "min(sign*sum) - value >= 0"},
     "AtLeast.is_contradiction": {"props": ["C06"], "why": "max(sign*sum) - value <= -1"},
-    "AtLeast.assume": {"props": ["C03", "C06", "C07"], "split": "sign",
+    "AtLeast.assume": {"props": ["C01", "C03", "C06", "C07"], "split": "sign",
                        "why": "K1 own-id override, K2 constant short-circuit, K3 all children same dict, K4 interval kernel, "
                               "K5 keeps value/sign/id, H4 no child loses its definition"},
-    "AtLeast.evaluate": {"props": ["C03"], "why": "evaluate = entry of own id in evaluate_propositions"},
-    "AtLeast.evaluate_propositions": {"props": ["C03"], "why": "{x.id: out(x.bounds)} over flatten() of the assumed model"},
+    "AtLeast.evaluate": {"props": ["C01", "C03"], "why": "evaluate = entry of own id in evaluate_propositions"},
+    "AtLeast.evaluate_propositions": {"props": ["C01", "C03"], "why": "{x.id: out(x.bounds)} over flatten() of the assumed model"},
     "AtLeast.reduce": {"props": ["C08"], "split": "sign",
                        "why": "R1 own constant; R2 children reduced; R3 kernel; R4 constant result; R5 threshold minus sign*constants"},
     # ---- polyhedron bridge (C01) and solver bridge (C15) -----------------------------------------------------
@@ -65,19 +65,19 @@ CONTRACTS = {
     "AtLeast.solve": {"props": ["C15"], "why": "objective over A-columns default 0; zip(A.variables, solution); virtual filter; None -> {}"},
     # ---- serialisation (C16 / C17) ------------------------------------------------------------------------------
     "AtLeast.to_json": {"props": ["C16"], "why": "type, propositions, value; id iff explicit; sign iff not the constructor default"},
-    "AtLeast.from_json": {"props": ["C16"], "why": "value default 1; children through the dispatcher; id; sign"},
+    "AtLeast.from_json": {"props": ["C04", "C16"], "why": "value default 1; children through the dispatcher; id; sign"},
     "AtMost.to_json": {"props": ["C16"], "why": "value written as -1*stored value (inverse of the constructor)"},
-    "AtMost.from_json": {"props": ["C16"], "why": "reads value/propositions/id through AtMost()"},
+    "AtMost.from_json": {"props": ["C04", "C16"], "why": "reads value/propositions/id through AtMost()"},
     "All.to_json": {"props": ["C16"], "why": "no value (re-derived from the children)"},
-    "All.from_json": {"props": ["C16"], "why": "children + id through All()"},
+    "All.from_json": {"props": ["C04", "C16"], "why": "children + id through All()"},
     "Any.to_json": {"props": ["C16"], "why": "no value (constant 1)"},
-    "Any.from_json": {"props": ["C16"], "why": "children + id through Any()"},
+    "Any.from_json": {"props": ["C04", "C16"], "why": "children + id through Any()"},
     "Imply.to_json": {"props": ["C16"], "why": "condition written re-negated, consequence as is"},
-    "Imply.from_json": {"props": ["C16"], "why": "condition/consequence/id through Imply()"},
+    "Imply.from_json": {"props": ["C04", "C16"], "why": "condition/consequence/id through Imply()"},
     "Xor.to_json": {"props": ["C16"], "why": "children of the first (at-least-one) sub proposition"},
-    "Xor.from_json": {"props": ["C16"], "why": "cls(*children, variable=id)"},
+    "Xor.from_json": {"props": ["C04", "C16"], "why": "cls(*children, variable=id)"},
     "XNor.to_json": {"props": ["C16"], "why": "children of the re-negated first sub proposition"},
-    "XNor.from_json": {"props": ["C16"], "why": "children + id through XNor()"},
+    "XNor.from_json": {"props": ["C04", "C16"], "why": "children + id through XNor()"},
     "Not.from_json": {"props": ["C16", "C04"], "why": "Not(from_json(proposition))"},
     "AtLeast.to_b64": {"props": ["C17"], "why": "pickle.dumps(self) -> gzip -> base64"},
     "from_b64": {"props": ["C17"], "why": "inverse pipeline"},
